@@ -11,9 +11,10 @@ Decided compositionally on the MIR of ruma-common (+ Kani for the member-count k
                   against the specification's meaning of the condition (matcher abstracted as above).
  W  word match    str::matches_word for literal patterns (no wildcards) on symbolic ASCII strings against the
                   specification: some occurrence of the pattern delimited by non-word characters or the string ends.
- K  member count  RoomMemberCountIs::contains for every operator and every pair of counts (Kani harness).
+ R  wildcards     the regex matches_word builds for patterns with wildcards, for every pattern shape, against the specified translation.
+ F  flattening    FlattenedJson::flatten_value on nested objects with symbolic keys: dot-joined, backslash-escaped paths.
 Outside the claim: the glob engine (wildmatch crate) and the regex built for wildcard word patterns (regex crate) are
-library code; non-ASCII text; FlattenedJson::from_raw (serde_json)."""
+library code; non-ASCII text; the serde_json parsing step of FlattenedJson::from_raw."""
 import os, sys, re, itertools
 sys.path.insert(0, os.path.dirname(os.path.abspath(__file__)))
 from common import *
@@ -557,6 +558,110 @@ def run_word(C, job):
                 C.samples.append({'word_witness': [v, p], 'native': res.get('v')})
 
 
+# ------------------------------------------------------------------------------------------------ F flattening
+def run_flatten(C, job):
+    """FlattenedJson::flatten_value on {k1: {k2: "v"}, k3: "w", k4: {}} with symbolic keys k1, k2 (every printable ASCII text of
+    the enumerated lengths): the flattened map has exactly the entries escape(k1).escape(k2) -> "v", k3 -> "w", k4 -> {}, where
+    escape doubles backslashes and prefixes dots with a backslash (the dot-path addressing of the specification)"""
+    L = job
+    E = C.fresh_engine(KEYS, N=8)
+    E.feas_mode = 'budget'; E.feas_timeout_ms = 1000; E.feas_fresh = True
+    JV = 'serde_json::Value'
+    S = lambda s_: Obj('String', s_)
+    f = E.find_method('FlattenedJson', 'flatten_value')
+    nq = 0
+    for l1 in range(1, L + 1):
+        for l2 in range(1, L + 1):
+            def sym(name, n):
+                elems = [z3.BitVec(f'{name}{n}_{j}', 8) for j in range(n)]
+                cons_ = [z3.And(z3.UGE(b, 0x20), z3.ULE(b, 0x7E)) for b in elems]
+                return Str(z3.K(z3.BitVecSort(64), z3.BitVecVal(0, 8)), bv(0), bv(n), True, n, None, n, elems), cons_
+            k1, c1 = sym('k1_', l1); k2, c2 = sym('k2_', l2)
+            cons = c1 + c2
+            inner = E.mk_map('serde_json::Map', [(S(k2), Adt(JV, 'String', [S(E.const_str(b'v'))]))])
+            outer = E.mk_map('serde_json::Map', [(S(k1), Adt(JV, 'Object', [inner])), (S(E.const_str(b'zz')), Adt(JV, 'String', [S(E.const_str(b'w'))])),
+                                                 (S(E.const_str(b'zy')), Adt(JV, 'Object', [E.mk_map('serde_json::Map', [])]))])
+            st = E.new_state()
+            fj = E.root_ref(st, struct(E, FJ, map=E.mk_map('BTreeMap', [])))
+            del E.axioms[:]
+            outs = E.run_func(f, [fj, Adt(JV, 'Object', [outer]), S(E.const_str(b''))], cons + [z3.Not(z3.And(k1.ln == 2, k1.at(0) == 0x7A, z3.Or(k1.at(1) == 0x7A, k1.at(1) == 0x79))) if l1 == 2 else z3.BoolVal(True)], st=st)
+            C.absorb(E)
+
+            def esc(s_, n):
+                # expected escaped text as a list of z3 bytes per concrete mask is awkward: compare by decoding instead:
+                return None
+            bad = []
+            for o in outs:
+                if o.kind != 'ret':
+                    bad.append(o.cond()); continue
+                mp = E.deref(o.st, E.deref(o.st, fj).fields[0])
+                ents = [(E.as_str(o.st, k), E.deref(o.st, v)) for k, v in mp.data[1]]
+                if len(ents) != 3:
+                    bad.append(o.cond()); continue
+                # the entry that is neither zz nor zy is the nested one
+                nested = [(k, v) for k, v in ents if k.conc() not in (b'zz', b'zy')]
+                fixed = {k.conc(): v for k, v in ents if k.conc() in (b'zz', b'zy')}
+                okc = (len(nested) == 1 and set(fixed) == {b'zz', b'zy'} and fixed[b'zz'].variant == 'String' and E.as_str(o.st, fixed[b'zz'].fields[0]).conc() == b'w'
+                       and fixed[b'zy'].variant == 'EmptyObject' and nested[0][1].variant == 'String' and E.as_str(o.st, nested[0][1].fields[0]).conc() == b'v')
+                if not okc:
+                    bad.append(o.cond()); continue
+                # unescape the produced path (concrete length on this path) and compare with k1 . k2
+                kk = nested[0][0]
+                n = z3.simplify(kk.ln)
+                if not z3.is_bv_value(n):
+                    bad.append(o.cond()); continue
+                n = n.as_long()
+                # decode: walk the bytes; a backslash escapes the next byte; an unescaped dot separates
+                # (positions are concrete, bytes symbolic: build the formula "decodes to k1 '.' k2" by dynamic programming over
+                # the two possible readings at each position is unnecessary: the expected *encoding* is unique, so build it)
+                exp = []
+                for src in (k1, None, k2):
+                    if src is None:
+                        exp.append([('lit', 0x2E)]); continue
+                    for j in range(z3.simplify(src.ln).as_long()):
+                        exp.append([('esc?', src.at(j))])
+                # expected encoding depends on which source bytes need escaping: enumerate by the path's own shape: the number of
+                # escapes is n - (l1 + l2 + 1); require a consistent assignment
+                need = n - (l1 + l2 + 1)
+                srcs = [k1.at(j) for j in range(l1)] + [None] + [k2.at(j) for j in range(l2)]
+                alts = []
+                idxs = [i for i, b in enumerate(srcs) if b is not None]
+                import itertools as _it
+                for esc_set in _it.combinations(idxs, need) if 0 <= need <= len(idxs) else []:
+                    pos, cs = 0, []
+                    for i, b in enumerate(srcs):
+                        if b is None:
+                            cs.append(kk.at(pos) == 0x2E); pos += 1
+                        elif i in esc_set:
+                            cs += [z3.Or(b == 0x2E, b == 0x5C), kk.at(pos) == 0x5C, kk.at(pos + 1) == b]; pos += 2
+                        else:
+                            cs += [b != 0x2E, b != 0x5C, kk.at(pos) == b]; pos += 1
+                    alts.append(z3.And(*cs))
+                bad.append(z3.And(o.cond(), z3.Not(z3.Or(*alts)) if alts else z3.BoolVal(True)))
+            r, m = C.solve_split(f'flatten: path of a nested key pair ({l1}, {l2} bytes) is escape(k1).escape(k2); leaves and empty objects kept', cons + list(E.axioms), bad, chunk=32)
+            nq += 1
+            if r == 'sat':
+                a_, b_ = model_bytes(m, k1).decode(), model_bytes(m, k2).decode()
+                esc_ = lambda t: t.replace('\\', '\\\\').replace('.', '\\.')
+                want_key = esc_(a_) + '.' + esc_(b_)
+                vec = {'op': 'c12:condition', 'condition': {'kind': 'event_match', 'key': want_key, 'pattern': 'v'},
+                       'event': {a_: {b_: 'v'}, 'zz': 'w', 'zy': {}, 'sender': '@a:x'}, 'ctx': {'user_id': '@me:x', 'room_id': '!r:x'}}
+                res = C.native(vec); vec['native'] = res
+                if res.get('r') == 'ok' and res.get('v') is not True:
+                    C.report_violation(f'flattened event: the value under keys {a_!r} / {b_!r} is not addressable by the escaped dot path {want_key!r}', vec)
+                    C.samples.append({'flatten_counterexample': vec})
+                    return
+                raise Broken(f'flatten: model does not reproduce natively: {vec}')
+    C.bounds[f'flatten:{L}'] = {'max_key_bytes': L, 'queries': nq}
+    vec = {'op': 'c12:condition', 'condition': {'kind': 'event_match', 'key': 'a\\.b.c\\\\d', 'pattern': 'v'},
+           'event': {'a.b': {'c\\d': 'v'}, 'sender': '@a:x'}, 'ctx': {'user_id': '@me:x', 'room_id': '!r:x'}}
+    res = C.native(vec)
+    C.model_validation += 1
+    if res.get('r') != 'ok' or res.get('v') is not True:
+        raise Broken(f'flatten validation vector fails natively: {res}')
+    C.samples.append({'flatten': f'keys up to {L} bytes', 'native_validation': 'a\\.b.c\\\\d addresses {"a.b": {"c\\d": ..}}'})
+
+
 # ------------------------------------------------------------------------------------------------ R wildcard word patterns
 def run_wildcard(C, job):
     """the regex matches_word builds for a pattern with wildcards, for every pattern shape (each position a letter, '?'
@@ -651,6 +756,7 @@ def body(C):
         jobs.append((run_conditions, w))
     jobs.append((run_word, (7, 3) if C.tier == 'thorough' else (6, 2)))
     jobs.append((run_wildcard, 5 if C.tier == 'thorough' else 4))
+    jobs.append((run_flatten, 3 if C.tier == 'thorough' else 2))
     if os.environ.get('VERIF_PARTS'):
         parts = os.environ['VERIF_PARTS'].split(',')
         jobs = [j for j in jobs if (j[0].__name__.replace('run_', '') in parts or str(j[1]) in parts)]
